@@ -284,12 +284,30 @@ func (s *Syncer[H]) findTailHeight(ctx context.Context, oldTail, head H) (uint64
 		newTailHeight++
 	}
 
+	// blockTime is only an upper bound for the actual spacing of headers, so the estimation can
+	// land above headers that are still inside the window, and the loop above only walks up.
+	// Walk down while the locally stored header right below is not older than the window.
+	lower, walked := min(newTailHeight, s.store.Height()+1), false
+	for lower > oldTail.Height()+1 {
+		below, err := s.store.GetByHeight(ctx, lower-1)
+		if err != nil {
+			return 0, fmt.Errorf("getting header(%d) below the estimated tail from store: %w", lower-1, err)
+		}
+		if expectedTailTime.Compare(below.Time().UTC()) > 0 {
+			break
+		}
+		lower, walked = lower-1, true
+	}
+	if walked {
+		newTailHeight = lower
+	}
+
 	log.Debugw(
 		"new tail height",
 		"new_confirmed_tail",
 		newTailHeight,
 		"estimation_error",
-		newTailHeight-estimatedTailHeight,
+		int64(newTailHeight)-int64(estimatedTailHeight), //nolint:gosec
 	)
 	return newTailHeight, nil
 }
